@@ -5,6 +5,7 @@ import Mathlib.Tactic.Ring
 import Mathlib.Tactic.Linarith
 import Mathlib.Tactic.FieldSimp
 import Mathlib.Tactic.NormNum
+import Mathlib.Data.Rat.Sqrt
 
 /-!
 # C15 — LDA rescoring finds the Fisher direction, targets scoring high, or falls back
@@ -1154,6 +1155,683 @@ theorem solve_fails_on_spd_witness :
     solve cQ 3 [[1, 2, 0], [2, 5, 0], [0, 0, 1]] [[1], [1], [1]] = none ∧
     Sat (K := ℚ) [[3], [-1], [1]] 1 ([[1, 2, 0], [2, 5, 0], [0, 0, 1]], [[1], [1], [1]]) := by
   constructor
+  · decide +kernel
+  · decide +kernel
+
+/-! ## deepening round: the fallback of `train`, the power method on a rank-one matrix, exact correctness of the solver -/
+
+/-! ### when the solver fails, nothing is fitted and nothing is written -/
+
+/-- **C15.train_none_of_solve_none** — when `Gauss::solve` reports failure (every regulariser of the ladder
+rejected), `train` returns `None`: no direction is fabricated. -/
+theorem train_none_of_solve_none (c : Consts K) (sqrt : K → K) (feats : Mat K) (decoy : List Bool) (p : Nat)
+    (h : solve c p (stats feats decoy p).sw (stats feats decoy p).sb = none) :
+    train c sqrt feats decoy p = none := by
+  unfold train fit; rw [h]
+
+/-- **C15.unfit_untouched** — whenever `score_psms` returns `None` (the solver failed, or the eigenvector is
+not finite) every PSM keeps the `discriminant_score` / `posterior_error` it had: the model-level statement
+behind C14's correspondence clause `bad:unfit_modified` (a failed fit must leave the values `Scorer`
+initialised, 0.0 and 1.0) and behind the fallback of `Runner::spectrum_fdr` starting from untouched PSMs. -/
+theorem unfit_untouched (c : Consts K) (sqrt : K → K) (isFinite : K → Bool) (pepOf : K → K)
+    (feats : Mat K) (decoy : List Bool) (p : Nat) (old : List (K × K))
+    (h : (scorePsmsOutcome c sqrt isFinite pepOf feats decoy p old).1 = none) :
+    (scorePsmsOutcome c sqrt isFinite pepOf feats decoy p old).2 = old := by
+  unfold scorePsmsOutcome at h ⊢
+  split
+  · rfl
+  · rename_i w hw; rw [hw] at h; simp at h
+
+/-- …in particular when the solver fails -/
+theorem unfit_of_solve_none (c : Consts K) (sqrt : K → K) (isFinite : K → Bool) (pepOf : K → K)
+    (feats : Mat K) (decoy : List Bool) (p : Nat) (old : List (K × K))
+    (h : solve c p (stats feats decoy p).sw (stats feats decoy p).sb = none) :
+    scorePsmsOutcome c sqrt isFinite pepOf feats decoy p old = (none, old) := by
+  unfold scorePsmsOutcome
+  rw [train_none_of_solve_none c sqrt feats decoy p h]
+  rfl
+
+/-- non-vacuity: a 5-PSM, 3-feature data set (within-class scatter `[[1,2,0],[2,5,0],[0,0,1]]`, condition
+number ≈ 49) on which the solver fails for every regulariser (the spurious failure of
+`solve_fails_on_spd_witness`); the PSMs keep their initial `(0, 1)` -/
+example : scorePsmsOutcome cQ id (fun _ => true) id
+    [[6, 8, 6], [4, 4, 4], [1, 1, 1], [6, 6, 4], [4, 2, 6]] [false, false, true, false, false] 3
+    [(0, 1), (0, 1), (0, 1), (0, 1), (0, 1)] = (none, [(0, 1), (0, 1), (0, 1), (0, 1), (0, 1)]) := by
+  apply unfit_of_solve_none
+  decide +kernel
+
+/-! ### the power method on a rank-one matrix reaches the column direction: `train` returns the Fisher direction -/
+
+theorem absv_nonneg (x : K) : 0 ≤ absv x := by
+  unfold absv; split <;> linarith
+theorem absv_mul_self (x : K) : absv x * absv x = x * x := by
+  unfold absv; split <;> ring
+theorem absv_of_nonneg {x : K} (h : 0 ≤ x) : absv x = x := by
+  unfold absv; rw [if_neg (not_lt.mpr h)]
+theorem absv_mul (x y : K) : absv (x * y) = absv x * absv y := by
+  have h1 := absv_nonneg (x * y)
+  have h2 := mul_nonneg (absv_nonneg x) (absv_nonneg y)
+  have h3 : absv (x * y) * absv (x * y) = (absv x * absv y) * (absv x * absv y) := by
+    rw [absv_mul_self]; calc x * y * (x * y) = (x * x) * (y * y) := by ring
+      _ = (absv x * absv x) * (absv y * absv y) := by rw [absv_mul_self, absv_mul_self]
+      _ = _ := by ring
+  rcases mul_self_eq_mul_self_iff.mp h3 with h | h
+  · exact h
+  · have : absv (x * y) = 0 := by linarith
+    have : absv x * absv y = 0 := by linarith
+    linarith
+theorem absv_eq_zero {x : K} : absv x = 0 ↔ x = 0 := by
+  unfold absv; split <;> constructor <;> intro h <;> linarith
+theorem absv_neg (x : K) : absv (-x) = absv x := by
+  have := absv_mul (-1) x
+  have h1 : absv (-1 : K) = 1 := by unfold absv; rw [if_pos (by norm_num)]; ring
+  rw [h1] at this; simpa using this
+
+/-- what the model needs of `sqrt`: the root of a square of a non-negative number is that number
+(`Real.sqrt`, and `Rat.sqrt` on ℚ, satisfy it; nothing is asked on non-squares) -/
+def IsSqrt (sqrt : K → K) : Prop := ∀ r, 0 ≤ r → sqrt (r * r) = r
+
+/-- `Σ xᵢ²` as `ml::norm` accumulates it -/
+def sumsq (v : List K) : K := v.foldl (fun acc x => acc + x * x) 0
+
+theorem norm_eq (sqrt : K → K) (v : List K) : norm sqrt v = sqrt (sumsq v) := rfl
+
+theorem foldl_sq_acc (v : List K) (a : K) :
+    v.foldl (fun acc x => acc + x * x) a = a + v.foldl (fun acc x => acc + x * x) 0 := by
+  induction v generalizing a with
+  | nil => simp
+  | cons x xs ih => simp only [List.foldl_cons]; rw [ih (a + x * x), ih (0 + x * x)]; ring
+
+theorem sumsq_nonneg (v : List K) : 0 ≤ v.foldl (fun acc x => acc + x * x) 0 := by
+  induction v with
+  | nil => simp
+  | cons x xs ih =>
+    simp only [List.foldl_cons]; rw [foldl_sq_acc]
+    have := mul_self_nonneg x; linarith
+
+theorem sumsq_smul (v : List K) (c : K) :
+    (v.map (· * c)).foldl (fun acc x => acc + x * x) 0 = c * c * v.foldl (fun acc x => acc + x * x) 0 := by
+  induction v with
+  | nil => simp
+  | cons x xs ih =>
+    simp only [List.map_cons, List.foldl_cons]
+    rw [foldl_sq_acc, ih, foldl_sq_acc (a := 0 + x * x)]; ring
+
+/-- `‖u‖ = r` when `Σ uᵢ² = r²`, `r ≥ 0` -/
+theorem norm_of_sq {sqrt : K → K} (hs : IsSqrt sqrt) (u : List K) (r : K) (hr : 0 ≤ r)
+    (hq : sumsq u = r * r) : norm sqrt u = r := by
+  rw [norm_eq, hq, hs r hr]
+
+/-- `‖c·u‖ = |c|·‖u‖` -/
+theorem norm_smul {sqrt : K → K} (hs : IsSqrt sqrt) (u : List K) (r : K) (hr : 0 ≤ r)
+    (hq : sumsq u = r * r) (c : K) : norm sqrt (u.map (· * c)) = absv c * r := by
+  rw [norm_eq]
+  have : sumsq (u.map (· * c)) = (absv c * r) * (absv c * r) := by
+    unfold sumsq at hq ⊢
+    rw [sumsq_smul, hq]
+    calc c * c * (r * r) = (absv c * absv c) * (r * r) := by rw [absv_mul_self]
+      _ = _ := by ring
+  rw [this, hs _ (mul_nonneg (absv_nonneg c) hr)]
+
+/-- the rank-one matrix `u wᵀ` -/
+def outer (u w : List K) : Mat K := u.map fun a => w.map fun b => a * b
+
+/-- one iteration of `power_method` on `u wᵀ`, from any `v`: with `s = w·v` the new norm is `|s|·‖u‖` and the
+new vector `u·(s / (|s|‖u‖))` -/
+theorem powerStep_rank_one {sqrt : K → K} (hs : IsSqrt sqrt) (tol : K) (u w v : List K) (last : K)
+    (N : K) (hN : 0 ≤ N) (hq : sumsq u = N * N) :
+    powerStep sqrt tol (outer u w) v last =
+      if absv (absv (dotl w v) * N - last) < tol then none
+      else some (u.map (· * (dotl w v / (absv (dotl w v) * N))), absv (dotl w v) * N) := by
+  unfold powerStep outer
+  simp only
+  rw [rank_one_step]
+  have e : (u.map fun a => a * dotl w v) = u.map (· * dotl w v) := rfl
+  rw [e, norm_smul hs u N hN hq, List.map_map]
+  have e2 : ((fun x => x / (absv (dotl w v) * N)) ∘ fun x => x * dotl w v)
+      = (· * (dotl w v / (absv (dotl w v) * N))) := by
+    funext x; simp only [Function.comp]; ring
+  rw [e2]
+
+/-- **C15.powerMethod_rank_one** — on a rank-one matrix `u wᵀ` with `u ≠ 0`, `w·u ≠ 0`, from a start `v₀`
+with `w·v₀ ≠ 0` whose first image is not below the stopping threshold (`tol ≤ |w·v₀/‖v₀‖|·‖u‖`), the power
+method returns `±u/‖u‖`: `u` scaled by some `t` with `|t|·N = 1`, `N = ‖u‖` (`Σuᵢ² = N²`, `N > 0`). It gets there in ONE step and stops at
+the latest in the third iteration. `sqrt` is any function with `sqrt (r²) = r` for `r ≥ 0`. This is the positive counterpart of `powerMethod_stuck` (finding F3: `w·v₀ = 0`) and of the
+early stop of finding F4 (first image below `tol`). -/
+theorem powerMethod_rank_one {sqrt : K → K} (hs : IsSqrt sqrt) (tol : K) (htol : 0 < tol)
+    (u w init : List K) (N : K) (hN0 : 0 < N) (hq : sumsq u = N * N) (hwu : dotl w u ≠ 0)
+    (hstart : dotl w (init.map (· / norm sqrt init)) ≠ 0)
+    (hscale : tol ≤ absv (dotl w (init.map (· / norm sqrt init))) * N) :
+    ∃ t : K, absv t * N = 1 ∧ powerMethod sqrt tol (outer u w) init = u.map (· * t) := by
+  set v0 := init.map (· / norm sqrt init) with hv0
+  set s1 := dotl w v0 with hs1
+  -- unit-length multiples of u
+  have unit : ∀ s : K, s ≠ 0 → absv (s / (absv s * N)) * N = 1 := by
+    intro s hs0
+    have ha : absv s ≠ 0 := fun h => hs0 (absv_eq_zero.mp h)
+    have hpos : 0 < absv s * N := mul_pos (lt_of_le_of_ne (absv_nonneg s) (Ne.symm ha)) hN0
+    have : absv (s / (absv s * N)) = absv s / (absv s * N) := by
+      rw [div_eq_mul_inv, absv_mul, absv_of_nonneg (le_of_lt (inv_pos.mpr hpos)), ← div_eq_mul_inv]
+    rw [this]; field_simp
+  -- a step from a unit multiple c·u has norm |w·u|
+  have stepnorm : ∀ c : K, absv c * N = 1 → absv (dotl w (u.map (· * c))) * N = absv (dotl w u) := by
+    intro c hc
+    rw [dotl_map_mul_right, absv_mul, mul_assoc, hc, mul_one]
+  have stepne : ∀ c : K, absv c * N = 1 → dotl w (u.map (· * c)) ≠ 0 := by
+    intro c hc h0
+    rw [dotl_map_mul_right] at h0
+    rcases mul_eq_zero.mp h0 with h | h
+    · exact hwu h
+    · rw [h] at hc; simp [absv] at hc
+  unfold powerMethod
+  simp only
+  rw [show (50 : Nat) = 47 + 1 + 1 + 1 from rfl]
+  -- iteration 1
+  rw [powerLoop, powerStep_rank_one hs _ _ _ _ _ N (le_of_lt hN0) hq]
+  have h1 : ¬ absv (absv s1 * N - 0) < tol := by
+    rw [sub_zero, absv_of_nonneg (mul_nonneg (absv_nonneg _) (le_of_lt hN0))]
+    exact not_lt.mpr hscale
+  rw [if_neg h1]
+  simp only
+  set c1 := s1 / (absv s1 * N) with hc1
+  have hc1u : absv c1 * N = 1 := unit s1 hstart
+  -- iteration 2
+  rw [powerLoop, powerStep_rank_one hs _ _ _ _ _ N (le_of_lt hN0) hq]
+  by_cases hb : absv (absv (dotl w (u.map (· * c1))) * N - absv s1 * N) < tol
+  · rw [if_pos hb]; exact ⟨c1, hc1u, rfl⟩
+  · rw [if_neg hb]
+    simp only
+    set s2 := dotl w (u.map (· * c1)) with hs2
+    set c2 := s2 / (absv s2 * N) with hc2
+    have hc2u : absv c2 * N = 1 := unit s2 (stepne c1 hc1u)
+    -- iteration 3: the norm repeats, the loop breaks
+    rw [powerLoop, powerStep_rank_one hs _ _ _ _ _ N (le_of_lt hN0) hq]
+    have h3 : absv (absv (dotl w (u.map (· * c2))) * N - absv s2 * N) < tol := by
+      rw [stepnorm c2 hc2u, hs2, stepnorm c1 hc1u, sub_self]
+      simpa [absv] using htol
+    rw [if_pos h3]
+    exact ⟨c2, hc2u, rfl⟩
+
+theorem isSqrt_ratSqrt : IsSqrt Rat.sqrt := by
+  intro r hr; rw [Rat.sqrt_eq, abs_of_nonneg hr]
+
+/-- non-vacuity over ℚ with `Rat.sqrt`: `u = (3,4)` (`N = 5`), `w = (1,2)`, start `(6,8)` -/
+example : ∃ t : ℚ, absv t * 5 = 1 ∧
+    powerMethod Rat.sqrt (1/100000000) (outer [3, 4] [1, 2]) [6, 8] = ([3, 4] : List ℚ).map (· * t) := by
+  apply powerMethod_rank_one isSqrt_ratSqrt _ (by norm_num) _ _ _ 5 (by norm_num)
+  · decide +kernel
+  · decide +kernel
+  · decide +kernel
+  · decide +kernel
+
+/-- **C15.train_fisher_of_rank_one** — the model-level statement that `train` returns the Fisher direction:
+whenever the solver's result has the rank-one form `g wᵀ` (in exact arithmetic it is
+`(S_w+εI)⁻¹ S_b = g (c d)ᵀ` with `g = (S_w+εI)⁻¹ d` by `between_rank_one`; that the solver returns exactly
+that is `solve_exact_of_identity` under its hypotheses), the start `x̄` is not orthogonal to `w` (`= c d`:
+`x̄·d ≠ 0`), `w·g ≠ 0` (`dᵀ(S_w+εI)⁻¹d > 0` for SPD) and the first image is not below the stopping
+threshold, `train` returns `g` scaled by `t` with `|t|·N = 1`, `N = ‖g‖`: the Fisher direction, normalised, up to the
+sign that `orientation` then fixes. Positive counterpart of findings F3 (`x̄·d = 0`) and F4 (below `tol`). -/
+theorem train_fisher_of_rank_one {sqrt : K → K} (hs : IsSqrt sqrt) (c : Consts K) (htol : 0 < c.tol)
+    (feats : Mat K) (decoy : List Bool) (p : Nat) (g w : List K) (N : K) (hN0 : 0 < N) (hq : sumsq g = N * N)
+    (hsolve : solve c p (stats feats decoy p).sw (stats feats decoy p).sb = some (outer g w))
+    (hwg : dotl w g ≠ 0)
+    (hstart : dotl w ((stats feats decoy p).xbar.map (· / norm sqrt (stats feats decoy p).xbar)) ≠ 0)
+    (hscale : c.tol ≤ absv (dotl w ((stats feats decoy p).xbar.map (· / norm sqrt (stats feats decoy p).xbar))) * N) :
+    ∃ t : K, absv t * N = 1 ∧ train c sqrt feats decoy p = some (g.map (· * t)) := by
+  obtain ⟨t, ht, hp⟩ := powerMethod_rank_one hs c.tol htol g w (stats feats decoy p).xbar N hN0 hq hwg hstart hscale
+  unfold train fit
+  rw [hsolve]
+  simp only
+  rw [hp]
+  unfold orient
+  split
+  · refine ⟨-t, by rw [absv_neg]; exact ht, ?_⟩
+    rw [List.map_map]
+    congr 1
+    apply List.map_congr_left
+    intro a _
+    simp only [Function.comp]; ring
+  · exact ⟨t, ht, rfl⟩
+
+/-- non-vacuity over ℚ with `Rat.sqrt`: one feature, targets 3, 5, decoys 1, 2: every hypothesis holds
+(`g = (312500000/125000001)`, `w = (1)`), so `train` returns `g·t` with `|t|·‖g‖ = 1`, i.e. `(±1)` -/
+example : ∃ t : ℚ, absv t * (312500000 / 125000001) = 1 ∧
+    train cQ Rat.sqrt [[3], [1], [5], [2]] [false, true, false, true] 1
+      = some (([312500000 / 125000001] : List ℚ).map (· * t)) := by
+  apply train_fisher_of_rank_one isSqrt_ratSqrt cQ (by norm_num [cQ]) _ _ _ _ [1] _ (by norm_num)
+  · decide +kernel
+  · decide +kernel
+  · decide +kernel
+  · decide +kernel
+  · decide +kernel
+
+/-! ### `solve_spd_correct`: false in full strength, proved along runs that skip no non-zero column -/
+
+/-- **C15.spd_not_goodRun_witness** — the conjecture "for a symmetric positive definite matrix every
+elimination run is a `GoodRun`" is FALSE of this `echelon`: `A = [[1,2,0],[2,5,0],[0,0,1]]` is symmetric with
+`xᵀAx = (x+2y)² + y² + z²` (positive definite), yet the run on `A + ε₀I` is not a `GoodRun` — after the row
+swap that the signed-max pivot search makes in column 0, column 1 holds `(negative, 0)`, its maximum is the
+exact zero of the uncoupled third row and the column is skipped. So `solve_spd_correct` cannot hold in full
+strength for this code (see `solve_fails_on_spd_witness`: `solve` then reports failure); it holds for runs
+that pick the diagonal entry (`goodRun_of_diagRun`) -/
+theorem spd_not_goodRun_witness :
+    (∀ x y z : ℚ, dotl [x, y, z] (dotv [[1, 2, 0], [2, 5, 0], [0, 0, 1]] [x, y, z])
+        = (x + 2 * y) ^ 2 + y ^ 2 + z ^ 2) ∧
+    ¬ GoodRun cQ.fmin 3 3 3 0 0 (fillZero cQ.eps0 [[1, 2, 0], [2, 5, 0], [0, 0, 1]], [[1], [1], [1]]) := by
+  constructor
+  · intro x y z
+    simp only [dotv, List.map_cons, List.map_nil, dotl_cons, dotl_nil_left]
+    ring
+  · decide +kernel
+
+/-- a run of the `echelon` loop in which every pivot search returns the current row `h` itself (no row swap:
+"the first candidate is the diagonal entry") and that entry is non-zero — what elimination on an SPD matrix
+looks like when no below-diagonal entry exceeds the diagonal one -/
+def DiagRun (fmin : K) (m n : Nat) : Nat → Nat → Nat → Mat K × Mat K → Prop
+  | 0, _, _, _ => True
+  | fuel + 1, h, k, (left, right) =>
+    if h < m ∧ k < n then
+      (findMax fmin left k h m).1 = h ∧ get left h k ≠ 0 ∧
+        DiagRun fmin m n fuel (h + 1) (k + 1) (clearBelow h k left right)
+    else True
+
+/-- **C15.goodRun_of_diagRun** — a pivoting-free run with non-zero diagonal pivots is a `GoodRun`, so
+`solve_sound_partial` applies to it without further hypotheses -/
+theorem goodRun_of_diagRun (fmin : K) (m n fuel h k : Nat) (st : Mat K × Mat K)
+    (hd : DiagRun fmin m n fuel h k st) : GoodRun fmin m n fuel h k st := by
+  induction fuel generalizing h k st with
+  | zero => trivial
+  | succ fuel ih =>
+    obtain ⟨left, right⟩ := st
+    unfold DiagRun at hd
+    unfold GoodRun
+    split
+    · rename_i hc
+      rw [if_pos hc] at hd
+      obtain ⟨hi, hp, hrest⟩ := hd
+      have hnz : ¬ isZero (get left (findMax fmin left k h m).1 k) = true := by
+        rw [hi, isZero_iff]; exact hp
+      rw [if_neg hnz, hi]
+      refine ⟨le_refl _, hc.1, ?_⟩
+      simp only [ne_eq, not_true_eq_false, if_false]
+      exact ih _ _ _ hrest
+    · trivial
+
+instance diagRunDec (fmin : K) (m n : Nat) : ∀ fuel h k st, Decidable (DiagRun fmin m n fuel h k st)
+  | 0, _, _, _ => isTrue trivial
+  | fuel + 1, h, k, (left, right) => by
+    unfold DiagRun
+    haveI := diagRunDec fmin m n fuel
+    infer_instance
+
+/-- non-vacuity: the SPD matrix `[[5,2,0],[2,1,0],[0,0,1]]` (the witness with rows/columns 0 and 1 exchanged)
+is eliminated without a swap -/
+example : DiagRun cQ.fmin 3 3 3 0 0 (fillZero cQ.eps0 [[5, 2, 0], [2, 1, 0], [0, 0, 1]], [[1], [1], [1]]) := by
+  decide +kernel
+
+/-! ### the converse direction: the row operations lose no equation either -/
+
+/-- if the combined row and the pivot row hold, the original row holds -/
+theorem rowSat_elim_rev {X : Mat K} {m : Nat} {l r hl hr : List K} (f : K)
+    (h1 : RowSat X m (elimRight hl f l) (elimRight hr f r)) (h2 : RowSat X m hl hr)
+    (hlen : l.length = hl.length) (hr' : r.length = m) : RowSat X m l r := by
+  intro c hc
+  have := h1 c hc
+  rw [dotl_elimRight _ _ _ _ hlen, getD_elimRight _ _ _ _ (by omega), h2 c hc] at this
+  linarith
+
+theorem rowSat_reduceRow_rev {X : Mat K} {m : Nat} {l r : List K}
+    (h : RowSat X m (reduceRow l r).1 (reduceRow l r).2) : RowSat X m l r := by
+  unfold reduceRow at h
+  split at h
+  · exact h
+  · rename_i j x hf
+    simp only at h
+    rw [reduceRow_left l j x hf] at h
+    obtain ⟨_, _, _, hx⟩ := firstNZ_spec l 0 j x hf
+    intro c hc
+    have := h c hc
+    rw [dotl_map_div_left] at this
+    simp only [List.getD_eq_getElem?_getD, List.getElem?_map] at this ⊢
+    cases hrc : r[c]? with
+    | none => rw [hrc] at this; simp at this; simpa [hx] using this
+    | some y =>
+      rw [hrc] at this
+      simp only [Option.map_some, Option.getD_some] at this ⊢
+      field_simp at this
+      exact this
+
+theorem reduce_complete {X : Mat K} {m : Nat} {st : Mat K × Mat K} (hlen : st.1.length = st.2.length)
+    (h : Sat X m (reduce st)) : Sat X m st := by
+  intro i hi
+  have h2 : i < st.2.length := by omega
+  have := h i (by simp only [reduce, List.length_zipWith]; omega)
+  simp only [reduce] at this
+  rw [getD_zipWith_rows _ _ _ _ _ hi h2, getD_zipWith_rows _ _ _ _ _ hi h2] at this
+  exact rowSat_reduceRow_rev this
+
+theorem rect_backfillRow {n m : Nat} (i : Nat) {st : Mat K × Mat K} (hr : Rect st n m) :
+    Rect (backfillRow i st) n m := by
+  unfold backfillRow
+  simp only
+  split
+  · exact hr
+  · obtain ⟨h0, h1, h2⟩ := hr
+    refine ⟨by simp [h0], ?_, ?_⟩
+    · intro r hmem
+      obtain ⟨k, hk, rfl⟩ := mem_mapIdx_rows _ _ _ hmem
+      split
+      · rw [length_elimRight]; exact h1 _ (getD_mem _ _ _ hk)
+      · exact h1 _ (getD_mem _ _ _ hk)
+    · intro r hmem
+      obtain ⟨k, hk, rfl⟩ := mem_mapIdx_rows _ _ _ hmem
+      split
+      · rw [length_elimRight]; exact h2 _ (getD_mem _ _ _ hk)
+      · exact h2 _ (getD_mem _ _ _ hk)
+
+theorem backfillRow_complete {X : Mat K} {n m : Nat} (i : Nat) {st : Mat K × Mat K} (hr : Rect st n m)
+    (h : Sat X m (backfillRow i st)) : Sat X m st := by
+  unfold backfillRow at h
+  simp only at h
+  split at h
+  · exact h
+  · rename_i j p hf
+    have hi : i < st.1.length := by
+      by_contra hc
+      have : st.1.getD i [] = [] := by
+        rw [List.getD_eq_getElem?_getD, List.getElem?_eq_none (by omega)]; rfl
+      rw [this] at hf; simp [firstNZ] at hf
+    obtain ⟨h0, h1, h2⟩ := hr
+    -- row i itself is unchanged
+    have hrowi : RowSat X m (st.1.getD i []) (st.2.getD i []) := by
+      have := h i (by simp only [List.length_mapIdx]; exact hi)
+      simp only at this
+      rw [getD_mapIdx_rows _ _ _ hi, getD_mapIdx_rows _ _ _ (by omega), if_neg (lt_irrefl i),
+        if_neg (lt_irrefl i)] at this
+      exact this
+    intro k hk
+    have := h k (by simp only [List.length_mapIdx]; exact hk)
+    simp only at this
+    rw [getD_mapIdx_rows _ _ _ hk, getD_mapIdx_rows _ _ _ (by omega)] at this
+    split at this
+    · apply rowSat_elim_rev _ this hrowi
+      · rw [h1 _ (getD_mem _ _ _ hk), h1 _ (getD_mem _ _ _ hi)]
+      · exact h2 _ (getD_mem _ _ _ (by omega))
+    · exact this
+
+theorem backfill_complete {X : Mat K} {n m : Nat} {st : Mat K × Mat K} (hr : Rect st n m)
+    (h : Sat X m (backfill st)) : Sat X m st := by
+  unfold backfill at h
+  generalize (List.range st.1.length).reverse = is at h
+  induction is generalizing st with
+  | nil => exact h
+  | cons i is ih =>
+    simp only [List.foldl_cons] at h
+    exact backfillRow_complete i hr (ih (rect_backfillRow i hr) h)
+
+theorem rect_clearBelow {n m : Nat} (h k : Nat) {st : Mat K × Mat K} (hr : Rect st n m) :
+    Rect (clearBelow h k st.1 st.2) n m := by
+  obtain ⟨h0, h1, h2⟩ := hr
+  unfold clearBelow
+  simp only
+  refine ⟨by simp [h0], ?_, ?_⟩
+  · intro r hmem
+    obtain ⟨i, hi, rfl⟩ := mem_mapIdx_rows _ _ _ hmem
+    split
+    · simp only [elimLeft, List.length_mapIdx]; exact h1 _ (getD_mem _ _ _ hi)
+    · exact h1 _ (getD_mem _ _ _ hi)
+  · intro r hmem
+    obtain ⟨i, hi, rfl⟩ := mem_mapIdx_rows _ _ _ hmem
+    split
+    · rw [length_elimRight]; exact h2 _ (getD_mem _ _ _ hi)
+    · exact h2 _ (getD_mem _ _ _ hi)
+
+theorem clearBelow_complete {X : Mat K} {n m : Nat} (h k : Nat) {st : Mat K × Mat K} (hr : Rect st n m)
+    (hs : Sat X m (clearBelow h k st.1 st.2)) (hh : h < st.1.length)
+    (hp : (st.1.getD h []).getD k 0 ≠ 0) (hz : ∀ j, j < k → (st.1.getD h []).getD j 0 = 0) :
+    Sat X m st := by
+  obtain ⟨h0, h1, h2⟩ := hr
+  unfold clearBelow at hs
+  simp only at hs
+  have hrowh : RowSat X m (st.1.getD h []) (st.2.getD h []) := by
+    have := hs h (by simp only [List.length_mapIdx]; exact hh)
+    simp only at this
+    rw [getD_mapIdx_rows _ _ _ hh, getD_mapIdx_rows _ _ _ (by omega), if_neg (lt_irrefl h),
+      if_neg (lt_irrefl h)] at this
+    exact this
+  intro i hi
+  have := hs i (by simp only [List.length_mapIdx]; exact hi)
+  simp only at this
+  rw [getD_mapIdx_rows _ _ _ hi, getD_mapIdx_rows _ _ _ (by omega)] at this
+  split at this
+  · rw [elimLeft_eq_elimRight k _ _ hp hz] at this
+    apply rowSat_elim_rev _ this hrowh
+    · rw [h1 _ (getD_mem _ _ _ hi), h1 _ (getD_mem _ _ _ hh)]
+    · exact h2 _ (getD_mem _ _ _ (by omega))
+  · exact this
+
+theorem swapRows_complete {X : Mat K} {m : Nat} (i j : Nat) {st : Mat K × Mat K}
+    (hlen : st.1.length = st.2.length) (hi : i < st.1.length) (hj : j < st.1.length)
+    (hs : Sat X m (swapRows st.1 i j, swapRows st.2 i j)) : Sat X m st := by
+  intro k hk
+  -- row k of the original sits at index σ k of the swapped system
+  have key : ∀ k', k' < st.1.length → RowSat X m ((swapRows st.1 i j).getD k' []) ((swapRows st.2 i j).getD k' []) :=
+    fun k' hk' => hs k' (by simp only [swapRows, List.length_set]; exact hk')
+  by_cases hki : k = i
+  · subst hki
+    have := key j hj
+    rw [getD_swapRows _ _ _ _ hk hj, getD_swapRows _ _ _ _ (by omega) (by omega)] at this
+    simpa using this
+  · by_cases hkj : k = j
+    · subst hkj
+      have := key i hi
+      rw [getD_swapRows _ _ _ _ hi hk, getD_swapRows _ _ _ _ (by omega) (by omega)] at this
+      by_cases hij : i = k
+      · subst hij; simpa using this
+      · simpa [hij] using this
+    · have := key k hk
+      rw [getD_swapRows _ _ _ _ hi hj, getD_swapRows _ _ _ _ (by omega) (by omega)] at this
+      simpa [hki, hkj] using this
+
+/-- **C15.echelonLoop_complete** — along a `GoodRun` the `echelon` loop loses no equation either: every
+solution of the eliminated system solves the original one (the converse of `echelonLoop_sound`) -/
+theorem echelonLoop_complete {X : Mat K} (fmin : K) {nn mm : Nat} (m n : Nat) (fuel h k : Nat)
+    (st : Mat K × Mat K) (hr : Rect st nn mm) (hm : st.1.length = m) (hinv : EchInv h k st.1)
+    (hg : GoodRun fmin m n fuel h k st) :
+    Rect (echelonLoop fmin m n fuel h k st) nn mm ∧
+      (Sat X mm (echelonLoop fmin m n fuel h k st) → Sat X mm st) := by
+  induction fuel generalizing h k st with
+  | zero => exact ⟨hr, id⟩
+  | succ fuel ih =>
+    obtain ⟨left, right⟩ := st
+    unfold echelonLoop
+    unfold GoodRun at hg
+    simp only at hm hinv
+    split
+    · rename_i hcond
+      rw [if_pos hcond] at hg
+      simp only
+      split
+      · rename_i hz
+        rw [if_pos hz] at hg
+        refine ih h (k + 1) (left, right) hr hm ?_ hg.2
+        intro i hi j hj
+        by_cases hjk : j < k
+        · exact hinv i hi j hjk
+        · have : j = k := by omega
+          subst this
+          by_cases him : i < m
+          · exact hg.1 i hi him
+          · exact get_of_length_le _ _ _ (by simp only; omega)
+      · rename_i hz
+        rw [if_neg hz] at hg
+        obtain ⟨hhi, him, hg'⟩ := hg
+        have hhm : h < left.length := by omega
+        have hil : (findMax fmin left k h m).1 < left.length := by omega
+        have hsw : Rect (if h ≠ (findMax fmin left k h m).1 then (swapRows left h (findMax fmin left k h m).1, swapRows right h (findMax fmin left k h m).1) else (left, right)) nn mm
+            ∧ (Sat X mm (if h ≠ (findMax fmin left k h m).1 then (swapRows left h (findMax fmin left k h m).1, swapRows right h (findMax fmin left k h m).1) else (left, right)) → Sat X mm (left, right))
+            ∧ EchInv h k (if h ≠ (findMax fmin left k h m).1 then (swapRows left h (findMax fmin left k h m).1, swapRows right h (findMax fmin left k h m).1) else (left, right)).1
+            ∧ (if h ≠ (findMax fmin left k h m).1 then (swapRows left h (findMax fmin left k h m).1, swapRows right h (findMax fmin left k h m).1) else (left, right)).1.length = m
+            ∧ get (if h ≠ (findMax fmin left k h m).1 then (swapRows left h (findMax fmin left k h m).1, swapRows right h (findMax fmin left k h m).1) else (left, right)).1 h k
+                = get left (findMax fmin left k h m).1 k := by
+          split
+          · refine ⟨rect_swapRows (st := (left, right)) _ _ hr hhm hil,
+              swapRows_complete (st := (left, right)) _ _ hr.1 hhm hil,
+              echInv_swapRows _ hinv hhi hhm hil, by simp [swapRows, hm], ?_⟩
+            rename_i hne
+            unfold get
+            rw [getD_swapRows _ _ _ _ hhm hil]
+            simp [hne]
+          · rename_i hne
+            have : h = (findMax fmin left k h m).1 := by
+              by_contra hc; exact hne hc
+            exact ⟨hr, id, hinv, hm, by simp only; rw [← this]⟩
+        obtain ⟨hr2, hback, hinv2, hm2, hpiv⟩ := hsw
+        have hp : ((if h ≠ (findMax fmin left k h m).1 then (swapRows left h (findMax fmin left k h m).1, swapRows right h (findMax fmin left k h m).1) else (left, right)).1.getD h []).getD k 0 ≠ 0 := by
+          intro h0
+          apply hz
+          rw [isZero_iff, ← hpiv]
+          exact h0
+        have hrec := ih (h + 1) (k + 1) _ (rect_clearBelow h k hr2)
+          (by simp only [clearBelow, List.length_mapIdx]; exact hm2) (echInv_clearBelow hinv2) hg'
+        refine ⟨hrec.1, fun hfin => hback ?_⟩
+        exact clearBelow_complete h k hr2 (hrec.2 hfin) (by rw [hm2]; omega) hp
+          (fun j hj => hinv2 h (le_refl _) j hj)
+    · exact ⟨hr, id⟩
+
+theorem rect_reduce {nn mm : Nat} {st : Mat K × Mat K} (hr : Rect st nn mm) : Rect (reduce st) nn mm := by
+  obtain ⟨h0, h1, h2⟩ := hr
+  refine ⟨by simp [reduce, h0], ?_, ?_⟩
+  · intro r hmem
+    simp only [reduce] at hmem
+    obtain ⟨i, hi, rfl⟩ := List.mem_iff_getElem.mp hmem
+    simp only [List.getElem_zipWith]
+    unfold reduceRow
+    split
+    · exact h1 _ (List.getElem_mem _)
+    · simp only [List.length_mapIdx]; exact h1 _ (List.getElem_mem _)
+  · intro r hmem
+    simp only [reduce] at hmem
+    obtain ⟨i, hi, rfl⟩ := List.mem_iff_getElem.mp hmem
+    simp only [List.getElem_zipWith]
+    unfold reduceRow
+    split
+    · exact h2 _ (List.getElem_mem _)
+    · simp only [List.length_map]; exact h2 _ (List.getElem_mem _)
+
+/-- the final state of `solve_inner` (before the `left_solved` test) -/
+def finalState (c : Consts K) (n : Nat) (A B : Mat K) (eps : K) : Mat K × Mat K :=
+  backfill (reduce (echelon c.fmin n (fillZero eps A, B)))
+
+/-- **C15.solve_equiv** — along a `GoodRun`, the system `solve_inner` ends on has EXACTLY the solutions of
+the regularised system `(A + eps·I) X = B` (both directions: `solve_sound_partial` and its converse) -/
+theorem solve_equiv (c : Consts K) (n nn mm : Nat) (A B : Mat K) (eps : K) (X : Mat K)
+    (hr : Rect (fillZero eps A, B) nn mm)
+    (hg : GoodRun c.fmin A.length n n 0 0 (fillZero eps A, B)) :
+    Sat X mm (fillZero eps A, B) ↔ Sat X mm (finalState c n A B eps) := by
+  have hlen : (fillZero eps A).length = A.length := by simp [fillZero]
+  have hinv0 : EchInv 0 0 (fillZero eps A, B).1 := fun i _ j hj => absurd hj (Nat.not_lt_zero j)
+  have hc := echelonLoop_complete (X := X) c.fmin A.length n n 0 0 (fillZero eps A, B) hr hlen hinv0 hg
+  have hre : Rect (echelon c.fmin n (fillZero eps A, B)) nn mm := by
+    unfold echelon; simp only [hlen]; exact hc.1
+  constructor
+  · intro hX
+    have he := echelonLoop_sound (X := X) c.fmin A.length n n 0 0 (fillZero eps A, B) hr hlen hinv0 hg hX
+    have he' : Sat X mm (echelon c.fmin n (fillZero eps A, B)) := by
+      unfold echelon; simp only [hlen]; exact he.2
+    exact (backfill_sound (rect_reduce hre) (reduce_sound hre.1 he')).2
+  · intro hF
+    have h1 := backfill_complete (rect_reduce hre) hF
+    have h2 := reduce_complete hre.1 h1
+    apply hc.2
+    have : echelon c.fmin n (fillZero eps A, B) = echelonLoop c.fmin A.length n n 0 0 (fillZero eps A, B) := by
+      unfold echelon; simp only [hlen]
+    rw [← this]; exact h2
+
+theorem rect_backfill {n m : Nat} {st : Mat K × Mat K} (hr : Rect st n m) : Rect (backfill st) n m := by
+  unfold backfill
+  generalize (List.range st.1.length).reverse = is
+  induction is generalizing st with
+  | nil => exact hr
+  | cons i is ih => simp only [List.foldl_cons]; exact ih (rect_backfillRow i hr)
+
+/-- the `n × n` identity matrix -/
+def identityK (n : Nat) : Mat K := (List.range n).map fun i => (List.range n).map fun j => if j = i then 1 else 0
+
+theorem identityK_getD (n i : Nat) (hi : i < n) (j : Nat) :
+    ((identityK (K := K) n).getD i []).getD j 0 = if j = i then 1 else 0 := by
+  unfold identityK
+  rw [getD_map_range _ _ _ hi]
+  by_cases hj : j < n
+  · rw [getD_map_range _ _ _ hj]
+  · have : n ≤ j := Nat.le_of_not_lt hj
+    rw [List.getD_eq_getElem?_getD, List.getElem?_eq_none (by simp; exact this)]
+    have : j ≠ i := by omega
+    simp [this]
+
+/-- **C15.solve_exact_of_identity** — full-strength correctness of `solve_inner`, with its two run
+hypotheses visible: if the elimination is a `GoodRun` and ends on the exact identity (in exact arithmetic
+both hold for every non-singular system whose pivots are found without meeting a zero column maximum, e.g.
+`DiagRun`s; they can FAIL for SPD input, `spd_not_goodRun_witness`), then the returned `X'` solves the
+regularised system exactly, `(A + eps·I) X' = B`, and it is the only solution (`solve_unique`). -/
+theorem solve_exact_of_identity (c : Consts K) (n mm : Nat) (A B : Mat K) (eps : K) (X' : Mat K)
+    (hA : A.length = n) (hr : Rect (fillZero eps A, B) n mm)
+    (hg : GoodRun c.fmin A.length n n 0 0 (fillZero eps A, B))
+    (hid : (finalState c n A B eps).1 = identityK n)
+    (hsol : solveInner c n A B eps = some X') :
+    Sat X' mm (fillZero eps A, B) ∧
+      ∀ X : Mat K, X.length = n → Sat X mm (fillZero eps A, B) →
+        ∀ i c', i < n → c' < mm → get X i c' = get X' i c' := by
+  have hX' : (finalState c n A B eps).2 = X' := by
+    unfold solveInner at hsol
+    simp only at hsol
+    split at hsol
+    · exact Option.some.inj hsol
+    · exact absurd hsol (by simp)
+  have hlen : (fillZero eps A).length = A.length := by simp [fillZero]
+  have hinv0 : EchInv 0 0 (fillZero eps A, B).1 := fun i _ j hj => absurd hj (Nat.not_lt_zero j)
+  have hre : Rect (echelon c.fmin n (fillZero eps A, B)) n mm := by
+    unfold echelon; simp only [hlen]
+    exact (echelonLoop_complete (X := X') c.fmin A.length n n 0 0 (fillZero eps A, B) hr hlen hinv0 hg).1
+  have hrf : Rect (finalState c n A B eps) n mm := rect_backfill (rect_reduce hre)
+  have hLn : (finalState c n A B eps).1.length = n := by rw [hid]; simp [identityK]
+  have hXn : X'.length = n := by rw [← hX', ← hrf.1, hLn]
+  have hrowlen : ∀ r ∈ (finalState c n A B eps).1, r.length = n := hrf.2.1
+  constructor
+  · rw [solve_equiv c n n mm A B eps X' hr hg]
+    intro i hi c' hc'
+    rw [hLn] at hi
+    rw [hX']
+    rw [dotl_unit _ _ i (by rw [hrowlen _ (getD_mem _ _ _ (by omega))]; exact hi)
+      (by rw [hrowlen _ (getD_mem _ _ _ (by omega))]; simp [col, hXn])
+      (by rw [hid]; exact identityK_getD n i hi)]
+    simp [col, List.getD_eq_getElem?_getD]
+    cases X'[i]? <;> simp
+  · intro X hXl hX i c' hi hc'
+    have hF := (solve_equiv c n n mm A B eps X hr hg).mp hX
+    have hF' : Sat X mm ((finalState c n A B eps).1, X') := by rw [← hX']; exact hF
+    exact solve_unique n mm _ X X' hLn hXl hrowlen
+      (fun i hi j => by rw [hid]; exact identityK_getD n i hi j) hF' i c' hi hc'
+
+/-- with `goodRun_of_diagRun`: the pivoting-free sub-case -/
+theorem solve_exact_of_diagRun (c : Consts K) (n mm : Nat) (A B : Mat K) (eps : K) (X' : Mat K)
+    (hA : A.length = n) (hr : Rect (fillZero eps A, B) n mm)
+    (hd : DiagRun c.fmin A.length n n 0 0 (fillZero eps A, B))
+    (hid : (finalState c n A B eps).1 = identityK n)
+    (hsol : solveInner c n A B eps = some X') : Sat X' mm (fillZero eps A, B) :=
+  (solve_exact_of_identity c n mm A B eps X' hA hr (goodRun_of_diagRun _ _ _ _ _ _ _ hd) hid hsol).1
+
+/-- non-vacuity: the SPD system `[[5,2,0],[2,1,0],[0,0,1]] X = (1,1,1)` with the code's first regulariser:
+all hypotheses hold (a `DiagRun`, ending on the exact identity), so the returned `X'` is the exact solution
+of `(A + 1e-8·I) X = B` -/
+example : ∃ X' : Mat ℚ, solveInner cQ 3 [[5, 2, 0], [2, 1, 0], [0, 0, 1]] [[1], [1], [1]] cQ.eps0 = some X' ∧
+    Sat X' 1 (fillZero cQ.eps0 [[5, 2, 0], [2, 1, 0], [0, 0, 1]], [[1], [1], [1]]) := by
+  have hsome : (solveInner cQ 3 [[5, 2, 0], [2, 1, 0], [0, 0, 1]] [[1], [1], [1]] cQ.eps0).isSome = true := by
+    decide +kernel
+  obtain ⟨X', hX'⟩ := Option.isSome_iff_exists.mp hsome
+  refine ⟨X', hX', ?_⟩
+  apply solve_exact_of_diagRun cQ 3 1 _ _ _ X' rfl _ _ _ hX'
+  · decide +kernel
   · decide +kernel
   · decide +kernel
 
